@@ -470,6 +470,14 @@ func (cs *connState) ClearTag(t tag) {
 	close(ch)
 }
 
+// tagDone returns the channel that is closed when the request currently
+// holding the tag finishes, or nil if the tag is not in flight.
+func (cs *connState) tagDone(t tag) chan struct{} {
+	cs.tagMu.Lock()
+	defer cs.tagMu.Unlock()
+	return cs.tags[t]
+}
+
 // Waittag waits for a tag to finish.
 func (cs *connState) WaitTag(t tag) {
 	cs.tagMu.Lock()
@@ -528,6 +536,15 @@ func (cs *connState) handleRequest() bool {
 	protoErr := err != nil && err != io.EOF
 	tagStarted := !protoErr && cs.StartTag(tag)
 
+	// A Tflush refers to the request holding OldTag at this point of the
+	// stream. Look that request up now: once another goroutine may
+	// receive, OldTag can be answered and re-used by a later request
+	// (possibly a flush of this very flush), which is not the one meant.
+	var flushed chan struct{}
+	if f, ok := m.(*tflush); ok && tagStarted && f.OldTag != tag {
+		flushed = cs.tagDone(f.OldTag)
+	}
+
 	// Ensure that another goroutine is available to receive from cs.t.
 	if atomic.LoadInt32(&cs.recvIdle) == 0 {
 		cs.pendingWg.Add(1)
@@ -559,9 +576,12 @@ func (cs *connState) handleRequest() bool {
 
 	// Handle the message.
 	var r message
-	if f, ok := m.(*tflush); ok && f.OldTag == tag {
-		// A flush naming its own tag has nothing to wait for: waiting
-		// for the tag would wait for this very request, forever.
+	if _, ok := m.(*tflush); ok {
+		// Wait for the flushed request, if it was in flight. (A flush
+		// naming its own tag or an idle tag has nothing to wait for.)
+		if flushed != nil {
+			<-flushed
+		}
 		r = &rflush{}
 	} else {
 		r = cs.handle(m)
